@@ -123,7 +123,9 @@ func connect(pm *protocol.ProtocolManager, name string, tag byte, withReqs bool)
 	if withReqs {
 		ep.reqs = make(chan rxMsg, 256)
 	}
-	peer, disc, stop := p2p.VerifNewPeer(ep.id, name, []p2p.Cap{{Name: "eth", Version: protoVersion}})
+	peer, disc, stopPeer := p2p.VerifNewPeer(ep.id, name, []p2p.Cap{{Name: "eth", Version: protoVersion}})
+	var stopOnce sync.Once
+	stop := func() { stopOnce.Do(stopPeer) }
 	ep.peer = peer
 	run := pm.SubProtocols[0].Run
 	go func() {
@@ -144,6 +146,7 @@ func connect(pm *protocol.ProtocolManager, name string, tag byte, withReqs bool)
 		case r := <-disc:
 			atomic.StoreInt32(&ep.disc, 1+int32(r))
 			_ = net.Close()
+			stop() // Peer.run closes the connection and then p.closed: further Disconnect calls return
 		case <-ep.done:
 		}
 	}()
@@ -294,10 +297,19 @@ func (ep *endpoint) waitRx(pred func(rxMsg) bool, d time.Duration) bool {
 	}
 }
 
-func (ep *endpoint) close() {
+// close ends the connection and waits for the protocol function to return. It reports false if
+// that does not happen within the (generous) deadline.
+func (ep *endpoint) close() bool {
 	_ = ep.net.Close()
-	<-ep.done
+	t := time.NewTimer(3 * liveDeadline)
+	defer t.Stop()
+	select {
+	case <-ep.done:
+	case <-t.C:
+		return false
+	}
 	<-ep.rdone
+	return true
 }
 
 // ---- session state ------------------------------------------------------------------------------------
@@ -1954,7 +1966,10 @@ func (s *session) teardown() {
 	defer func() { s.c.R.Count("ms_teardown", int(time.Since(t0).Milliseconds())) }()
 	s.stopResponder()
 	for _, ep := range s.eps {
-		ep.close()
+		if !ep.close() {
+			inconclusive(s.c, "protocol function of "+ep.name+" did not return after its connection was closed", dumpAll())
+			return // the follower's database stays open: the handler may still use it
+		}
 	}
 	stopped := make(chan struct{})
 	go func() { s.pm.Stop(); close(stopped) }()
